@@ -24,6 +24,18 @@ func Harness_C03_records() {
 	verifCover("end")
 }
 
+func Harness_C03_and_groups() {
+	x, s := verifInt("x"), symBuf("s", 2)
+	// positional literals: the Go compiler checks that the fields come in declared order
+	it := Item{s, New_Holder_Someone("h"), x}
+	sl := Slot{it, x, []Item{it}, s}
+	verifAssert(sl.Tool.Name == s && sl.Count == x && sl.Spare[0].Weight == x && sl.Label == s, "a record of an 'and' group keeps its declared field order")
+	verifAssert(it.Owner == Holder(Holder_Someone{Value: "h"}), "a union declared later in the group is the field's type")
+	n := TNode{[]TNode{{nil, "kid", 1}}, s, x}
+	verifAssert(n.Kids[0].Label == "kid" && n.Label == s && n.Depth == x, "a self-referential record keeps its declared field order")
+	verifCover("end")
+}
+
 func Harness_C03_unions() {
 	x := verifInt("x")
 	var u U = U_P{Value: x}
